@@ -187,6 +187,7 @@ impl<V: View> View for Frame<V> {
             return self.view.layout(ctx, ct, layout);
         }
 
+        let ct_frame = ct;
         let ct = BoxConstraint::new(
             Size {
                 height: ct.min().height.saturating_sub(2),
@@ -204,7 +205,8 @@ impl<V: View> View for Frame<V> {
             height: child_layout.size().height + 2,
             width: child_layout.size().width + 2,
         };
-        *layout = Layout::new().with_size(size);
+        // border does not fit if available space is less than two cells
+        *layout = Layout::new().with_size(ct_frame.clamp(size));
         Ok(())
     }
 }
